@@ -202,7 +202,7 @@ PROPS = {
         level='other',
         functions=[SEQ + f for f in ('__init__', 'swapRes', 'swapRandChargeRes', 'full_shuffle')] +
                   [SP + f for f in ('__init__#seqobj', 'get_shuffled_sequence')] + ['localcider/sequencePermutants.py:SequencePermutants.get_permutant'],
-        lemmas=['nmov_strict', 'nmov_nonneg', 'nmov_mono', 'nmov_nonneg_all'],
+        lemmas=['nmov_strict', 'nmov_nonneg', 'nmov_mono', 'nmov_nonneg_all'], lean=[('Perm.lean', 'perm_counts')],
         native='c17',
         explanation='proved for all sequences, all frozen sets and ALL outcomes of the internal random choices (random.Random methods return fresh values constrained only by the library contract): '
                     'swapRes returns the transposition of the two positions; swapRandChargeRes returns the object itself or a transposition of two NON-frozen positions and never raises; '
@@ -249,6 +249,22 @@ PROPS = {
                      'text formatting/logging helpers (fprint*Vector, writeLog, mklog) have assumed contracts',
                      'whole-run behaviour: bounded monitored runs (8 configurations x 2/12 seeded tapes), capped runs are inconclusive'],
         design_ref='2 / C18',
+    ),
+    'C11': dict(
+        level='proof',
+        functions=['localcider/backend/sequenceComplexity.py:SequenceComplexity.' + f for f in ('reduce_alphabet', 'CWF', 'LC', 'LZW', 'get_indexed_complexity_vector',
+                                                                                              'get_WF_complexity', 'get_LC_complexity', 'get_LZW_complexity')] +
+                  [SEQ + f for f in ('__check_window_to_length', 'get_linear_WF_complexity', 'get_linear_LC_complexity', 'get_linear_LZW_complexity')] +
+                  [SP + 'get_linear_complexity', SP + 'get_linear_complexity#badtype'],
+        lemmas=[], lean=[('Entropy.lean', 'wf_le_one'), ('Entropy.lean', 'card_words')],
+        native='c11',
+        assumptions=['proved by z3: window count K = floor((N-w)/s)+1 (all three types), positions strictly increasing inside 1..N, each WF value = - sum over the alphabet letters of p log_A p with p the letter\'s share of '
+                     'ITS OWN window of the reduced sequence (locality: only indices [k s, k s + w) are read), LZW in [0,1], LC >= 0 and LC * vmax <= number of word positions, unknown type and w > N rejected, type case-insensitive',
+                     'WF <= 1 is the Gibbs inequality and "at most A^k distinct words" is a counting fact: both proved in Lean 4 / Mathlib (/verif/lemmas/Entropy.lean: wf_le_one, card_words), stated in the shape the VC leaves; '
+                     'the reading of the SMT sums as Finset sums and that the reduced letters are among the alphabet (sum of shares = 1) is the trusted link',
+                     'log is uninterpreted (math.log(p, b) = logb(p, b)); n-gram sets are abstracted to their cardinality (membership = fresh boolean, add grows it by at most one)',
+                     'permutation invariance and "homopolymer -> 0" of WF follow from the closed form (counts only; log_b 1 = 0) and are checked natively'],
+        design_ref='2 / C11',
     ),
 }
 
